@@ -9,7 +9,7 @@
 (* Each check evaluates only its own property's predicate; a case whose    *)
 (* base stream is not lossless is not judged by C12 (that is C04's job).   *)
 (***************************************************************************)
-EXTENDS TokenStream, Json, TLC
+EXTENDS RefLexer, Json, TLC
 CONSTANT Check
 
 VARIABLE l
@@ -31,10 +31,14 @@ Fails(e) ==
         ELSE "")
   ELSE "unknown check; "
 
+\* drift (reported, never a verdict): the real option-free stream differs from the reference lexer of the specification
+Drift(e) == /\ Check = "C04" /\ e.kind \in {"generic", "expression"} /\ e.outcome = "ok"
+            /\ [i \in 1 .. Len(e.base) |-> <<e.base[i][1], e.base[i][2]>>] # RefTokens(e.kind, e.input)
 Init == l = 1
 Next ==
   /\ l <= Len(Trace)
   /\ l' = l + 1
+  /\ (~Drift(Trace[l]) \/ PrintT("SPEC-DRIFT " \o ToString(l) \o " the option-free stream differs from RefLexer.RefTokens"))
   /\ LET f == Fails(Trace[l]) IN f = "" \/ PrintT("VERIF-FAIL " \o ToString(l) \o " " \o f)
 Spec == Init /\ [][Next]_l
 Accepted == TLCGet("stats").diameter - 1 = Len(Trace)
